@@ -209,6 +209,17 @@ func runC02(r *Result, d *drv.Driver, tier string, seed int64, replay string) {
 			if again != cs[i].real {
 				r.find(Finding{Kind: "violation", What: "Encode output depends on history", Input: map[string]string{"value": cs[i].line}, Expect: cs[i].real, Actual: again})
 			}
+			switch g.R.Intn(6) {
+			case 0:
+				// a rejected value in between (fails half-way through a structure), and one into a writer that fails
+				_, _, _ = realEncode(kmip.Request{Header: kmip.RequestHeader{Version: kmip.ProtocolVersion{Major: 1, Minor: 4}, BatchCount: 1},
+					BatchItems: []kmip.RequestBatchItem{{Operation: kmip.OPERATION_GET, RequestPayload: map[string]string{"a": "b"}}}})
+			case 1:
+				func() {
+					defer func() { _ = recover() }()
+					_ = kmip.NewEncoder(failingWriter{after: 20}).Encode(cs[i].top)
+				}()
+			}
 			if strings.HasPrefix(again, "ok ") && g.R.Intn(4) == 0 {
 				// a decode in between (shares descriptors/type tables if there were any shared state)
 				raw := mustHex(again[3:])
@@ -250,4 +261,14 @@ func mustHex(s string) []byte {
 		panic(err)
 	}
 	return b
+}
+
+// failingWriter accepts `after` bytes and then fails
+type failingWriter struct{ after int }
+
+func (w failingWriter) Write(p []byte) (int, error) {
+	if len(p) > w.after {
+		return w.after, fmt.Errorf("write failed")
+	}
+	return len(p), nil
 }
